@@ -8,6 +8,7 @@ from vtlib import rt
 from vtlib.driver import Cond
 from vtlib.harness import scen
 from vtlib.harness.scen import World, Beh
+from vtlib.harness import c12
 
 PROPERTY = 'C15'
 TITLE = 'The watcher directory stays coherent; names are unique ignoring case'
@@ -137,6 +138,18 @@ def c15_directory(o1: int, n1: int, o2: int, n2: int, o3: int, n3: int, o4: int,
             return rt.skip()
 
 
+def c15_reload(e1: int, e2: int, e3: int) -> bool:
+    """
+    Directory coherence across reloadconfig sequences (the C12 scenario with the C15 oracle switched on).
+
+    pre: e1 == rt.S['e1'] and 0 <= e2 < len(c12.EDITS) and 0 <= e3 < len(c12.EDITS)
+    pre: rt.S.get('K', 2) >= 3 or e3 == 0
+    post: _
+    """
+    rt.S['directory'] = True
+    return c12.c12_reload(e1, e2, e3)
+
+
 def _canary_rm_case():
     """rm drops the watcher from the list by case-sensitive name"""
     import circus.arbiter as ca
@@ -193,7 +206,10 @@ def plan(tier):
         sh += [{'o1': o, 'K': 3, 'nops': 3, 'nnames': 4} for o in (0, 1, 2)]
     else:
         sh += [{'o1': o, 'K': 4, 'nops': 3, 'nnames': 4} for o in (0, 1, 2)]
+    rsh = [{'e1': i, 'K': 2 if q else 3} for i in range(len(c12.EDITS))]
     return [
+        Cond('c15_reload', shards=rsh, budget=240 if q else 1800, twins=1,
+             bounds={'e1': 'S: shard key over %r' % (c12.EDITS,), 'e2,e3': 'S: same menu', 'K': 'S{2} (thorough 3)'}),
         Cond('c15_directory', shards=sh, budget=240 if q else 2400, twins=2,
              bounds={'o_i': 'S%r' % (OPS,), 'n_i': 'S: name pool %r' % (NAMES,), 'K': 'S{2,3} (thorough 3,4)'}),
     ]
